@@ -83,6 +83,8 @@ type fnEnc struct {
 	curIdx   int
 	retSt    []*retPoint
 	retGoals [][]Term
+	curArgs  []Term
+	curBindings map[string]SVal
 	orphanClauses []string
 	backGoals map[int][]*backEdgeGoals
 }
@@ -204,9 +206,9 @@ func (e *fnEnc) needSort(s Sort) {
 	case SStr:
 		e.sortDecls = append(e.sortDecls,
 			"(declare-datatypes ((Str 0)) (((mk-str (s-arr (Array Int Int)) (s-off Int) (s-len Int)))))",
-			// str.at is a named wrapper of the array read so that quantifier triggers can mention s[k]
-			"(declare-fun str.at (Str Int) Int)",
-			"(assert (forall ((s Str) (k Int)) (! (= (str.at s k) (select (s-arr s) (+ (s-off s) k))) :pattern ((str.at s k)))))")
+			// byteAt is a named wrapper of the array read so that quantifier triggers can mention s[k]
+			"(declare-fun byteAt (Str Int) Int)",
+			"(assert (forall ((s Str) (k Int)) (! (= (byteAt s k) (select (s-arr s) (+ (s-off s) k))) :pattern ((byteAt s k)))))")
 	case SAStr:
 		e.sortDecls = append(e.sortDecls, "(declare-sort AStr 0)", "(declare-fun alen (AStr) Int)")
 	case SSlice:
@@ -496,7 +498,7 @@ func (e *fnEnc) zeroOfSort(s Sort, t types.Type) Term {
 			return e.mkRecord(si, fs)
 		case *types.Array:
 			es := e.sortOf(u.Elem())
-			return app(s, fmt.Sprintf("(as const %s)", s), e.zeroOfSort(es, u.Elem()))
+			return e.constArray(s, e.zeroOfSort(es, u.Elem()))
 		}
 	}
 	// pure spec sort: unconstrained
@@ -530,7 +532,7 @@ func strLen(s Term) Term {
 	}
 	return app(SInt, "s-len", s)
 }
-func strAt(s, i Term) Term { return app(SInt, "str.at", s, i) }
+func strAt(s, i Term) Term { return app(SInt, "byteAt", s, i) }
 
 func slBase(s Term) Term { return app(SInt, "sl-base", s) }
 func slOff(s Term) Term  { return app(SInt, "sl-off", s) }
@@ -868,3 +870,20 @@ func (e *fnEnc) analyzeCFG() {
 type bigInt = big.Int
 
 var bigOne = big.NewInt(1)
+
+// constArray: an array with every element equal to v. Solvers accept
+// (as const ...) only with literal values; otherwise a quantified definition is used.
+func (e *fnEnc) constArray(s Sort, v Term) Term {
+	switch {
+	case v.S == "true" || v.S == "false" || v.S == "0.0":
+		return app(s, fmt.Sprintf("(as const %s)", s), v)
+	case strings.HasPrefix(v.S, "(_ bv"):
+		return app(s, fmt.Sprintf("(as const %s)", s), v)
+	}
+	if _, ok := e.constOfTerm(v); ok {
+		return app(s, fmt.Sprintf("(as const %s)", s), v)
+	}
+	a := e.freshConst("zeroarr", s)
+	e.assertGlobal(T(SBool, fmt.Sprintf("(forall ((i Int)) (! (= (select %s i) %s) :pattern ((select %s i))))", a.S, v.S, a.S)))
+	return a
+}
